@@ -226,6 +226,57 @@ func run(repo string) (string, error) {
 		return "", fmt.Errorf("recoverSign strip length: %v", err)
 	}
 
+	// recoverSign: the order of recovery, verification under the group key and the single send on out
+	var steps []string
+	ast.Inspect(rsd, func(n ast.Node) bool {
+		switch x := n.(type) {
+		case *ast.CallExpr:
+			if t := exprText(x.Fun); t == "tbls.Recover" || t == "bls.Verify" {
+				arg := ""
+				if len(x.Args) > 2 {
+					arg = "(" + exprText(x.Args[1]) + "," + exprText(x.Args[2]) + ")"
+				}
+				steps = append(steps, t+arg)
+			}
+		case *ast.SendStmt:
+			if exprText(x.Chan) == "out" {
+				steps = append(steps, "send:out")
+			}
+		case *ast.ReturnStmt:
+			if len(steps) > 0 && steps[len(steps)-1] == "send:out" {
+				steps = append(steps, "return")
+			}
+		}
+		return true
+	})
+	// reportQueryResult: which adaptor call for which request type
+	rq := ex.FuncDecl(stages, "", "reportQueryResult")
+	if rq == nil {
+		return "", fmt.Errorf("reportQueryResult not found")
+	}
+	var rsteps []string
+	ast.Inspect(rq, func(n ast.Node) bool {
+		switch x := n.(type) {
+		case *ast.IfStmt:
+			rsteps = append(rsteps, "if:"+exprText(x.Cond))
+		case *ast.CallExpr:
+			if t := exprText(x.Fun); t == "chain.UpdateRandomness" || t == "chain.DataReturn" {
+				rsteps = append(rsteps, t)
+			}
+		}
+		return true
+	})
+	leanList := func(xs []string) string {
+		out := "["
+		for i, x := range xs {
+			if i > 0 {
+				out += ", "
+			}
+			out += ex.LeanStr(x)
+		}
+		return out + "]"
+	}
+
 	s := ex.Header("DosnodeConsts", "dosnode/dos_stages.go, dosnode/dos_query_handler.go")
 	s += "namespace Dos.Gen\n"
 	s += fmt.Sprintf("def randNumberSize : Nat := %s\n", c["randNumberSize"])
@@ -241,6 +292,10 @@ func run(repo string) (string, error) {
 	s += fmt.Sprintf("def padSize : Nat := %s\n", padSize)
 	s += fmt.Sprintf("/-- recoverSign: `t := %s` -/\n", exprText(trhs))
 	s += fmt.Sprintf("def stripLen : Nat := %s\n", strip)
+	s += "/-- recoverSign: calls of tbls.Recover / bls.Verify (with their key and message arguments), sends on out and the return after it, in source order -/\n"
+	s += fmt.Sprintf("def recoverSignSteps : List String := %s\n", leanList(steps))
+	s += "/-- reportQueryResult: conditions and adaptor calls in source order -/\n"
+	s += fmt.Sprintf("def reportSteps : List String := %s\n", leanList(rsteps))
 	s += "end Dos.Gen\n"
 	return s, nil
 }
